@@ -957,3 +957,61 @@ Example ex_affected_level :
 Proof. repeat split; reflexivity. Qed.
 Example ex_affected_invalid : affected_level_tiles ex_grid (1197, 100, 1203, 300) 1 = InvalidBBOX.
 Proof. vm_compute. reflexivity. Qed.
+
+(* ---- closest_level with threshold_res *)
+Lemma closest_thr_loop_no_threshold g rn rd : forall rs level prev tr last,
+  closest_thr_loop g rn rd rs level prev None [] tr last = closest_level_loop g rn rd rs level tr last.
+Proof.
+  induction rs as [|r rest IH]; intros level prev tr last; [reflexivity|].
+  cbn [closest_thr_loop closest_level_loop]. destruct tr as [t|].
+  - destruct (r * rd <? rn); [reflexivity|]. apply IH.
+  - apply IH.
+Qed.
+
+(* without thresholds the level is the one of closest_level (closest_level_spec applies) *)
+Lemma closest_level_thr_nil g rn rd : closest_level_thr g [] rn rd = closest_level g rn rd.
+Proof. unfold closest_level_thr, closest_level. cbn [rev thr_init]. apply closest_thr_loop_no_threshold. Qed.
+
+(* a threshold t between two levels, r_(k-1) > t >= r_k, switches there: a request r_k <= res < r_(k-1) (all coarser
+   levels are coarser than the request) gets level k-1 when res > t and level k otherwise, whatever the stretch factor *)
+Lemma closest_thr_loop_switch g rn rd t k ths : forall rs lv prev tr last,
+  res_tail g lv rs -> 0 <= lv <= k -> lv + Z.of_nat (length rs) = levels g -> k < levels g ->
+  (forall j, lv <= j < k -> rn < res_at g j * rd /\ t < res_at g j) ->
+  (lv = k -> t < prev) -> res_at g k <= t -> res_at g k * rd <= rn -> 0 < res_at g k ->
+  closest_thr_loop g rn rd rs lv prev (Some t) ths tr last = if t * rd <? rn then k - 1 else k.
+Proof.
+  induction rs as [|r rest IH]; intros lv prev tr last Ht Hlv Hlen Hk Hc Hp Hkt Hkr Hpos.
+  - cbn [length] in Hlen. lia.
+  - destruct Ht as [-> Ht]. cbn [closest_thr_loop]. destruct (Z.eq_dec lv k) as [->|Hne].
+    + replace (negb (t =? 0) && (t <? prev) && (res_at g k <=? t)) with true by (specialize (Hp eq_refl); symmetry; lia).
+      destruct (t * rd <? rn); [reflexivity|].
+      replace (res_at g k * rd <=? rn) with true by (symmetry; lia). reflexivity.
+    + destruct (Hc lv ltac:(lia)) as [Hc1 Hc2].
+      replace (negb (t =? 0) && (t <? prev) && (res_at g lv <=? t)) with false by (symmetry; lia).
+      replace (match tr with Some _ => res_at g lv * rd <? rn | None => false end) with false
+        by (destruct tr; [symmetry; lia|reflexivity]).
+      cbn [length] in Hlen.
+      apply IH; try assumption; try lia; try (intros j Hj; apply Hc; lia); try (intros _; exact Hc2).
+Qed.
+
+Lemma closest_level_thr_switch g t k rn rd :
+  1 <= k < levels g ->
+  (forall j, 0 <= j < k -> rn < res_at g j * rd /\ t < res_at g j) ->
+  0 < res_at g k <= t -> res_at g k * rd <= rn ->
+  closest_level_thr g [t] rn rd = if t * rd <? rn then k - 1 else k.
+Proof.
+  intros Hk Hc Hkt Hkr. unfold closest_level_thr. cbn [rev app thr_init thr_skip].
+  apply (closest_thr_loop_switch g rn rd t k [] (ress g) 0 (res_at g 0) None (-1) (res_tail_all g));
+    try lia; try exact Hc; unfold levels; lia.
+Qed.
+
+(* resolutions 100, 50, 20 with a threshold at 70: 75 -> level 0 although 50 is not within 75 * 1.15 ... and 70 -> level 1 *)
+Example ex_threshold :
+  closest_level_thr ex_grid [70] 75 1 = 0 /\ closest_level_thr ex_grid [70] 70 1 = 1 /\ closest_level_thr ex_grid [70] 55 1 = 1
+  /\ closest_level ex_grid 55 1 = 1 /\ closest_level ex_grid 75 1 = 1.
+Proof. repeat split; reflexivity. Qed.
+Example ex_threshold_switch : closest_level_thr ex_grid [70] 75 1 = if 70 * 1 <? 75 then 1 - 1 else 1.
+Proof.
+  apply closest_level_thr_switch; try (vm_compute; split; congruence); try (vm_compute; congruence).
+  intros j Hj. assert (j = 0) as -> by lia. vm_compute. split; reflexivity.
+Qed.
